@@ -18,7 +18,7 @@ func allProps() []PropSpec {
 			ID: "C02",
 			Harnesses: []HarnessSpec{
 				{Func: "ZZ_C02_H1", Pkg: "pkg/protocol/http1", Quick: map[string]int{"SPLITS": 1}, Thorough: map[string]int{"SPLITS": 2}, Covers: []string{"reached-assert", "two-requests-served"}},
-				{Func: "ZZ_C11_H2", Pkg: "pkg/protocol/http1/resp", Covers: []string{"reached-assert", "too-large"}, Note: "client direction: response reader, whole vs every split point"},
+				{Func: "ZZ_C11_H2", Pkg: "pkg/protocol/http1/resp", Covers: []string{"reached-assert", "too-large", "byte-at-a-time"}, Note: "client direction: response reader, whole vs every split point and byte-at-a-time"},
 			},
 			Assumptions: []string{"server direction only in this revision (client response reading is covered by C11 harnesses when present)", "streams are the four templates in harness/pkg/protocol/http1/c02.go, one with two symbolic structural bytes; quick = every single split point, thorough = every pair of split points"},
 		},
@@ -138,7 +138,7 @@ func allProps() []PropSpec {
 			ID: "C11",
 			Harnesses: []HarnessSpec{
 				{Func: "ZZ_C11_H1", Pkg: "pkg/protocol/http1", Quick: map[string]int{"P": 1, "H": 1, "B": 1}, Thorough: map[string]int{"P": 2, "H": 2, "B": 2}, Covers: []string{"reached-assert", "with-body"}},
-				{Func: "ZZ_C11_H2", Pkg: "pkg/protocol/http1/resp", Covers: []string{"reached-assert", "too-large"}},
+				{Func: "ZZ_C11_H2", Pkg: "pkg/protocol/http1/resp", Covers: []string{"reached-assert", "too-large", "byte-at-a-time"}},
 				{Func: "ZZ_C11_BIG", Pkg: "pkg/protocol/http1", Covers: []string{"reached-assert"}, Unwind: 20000, MaxSteps: 8000000, Note: "8 KiB+ streamed request body across copy-buffer boundaries"},
 				{Func: "ZZ_C11_MP", Pkg: "pkg/protocol", Quick: map[string]int{"F": 4, "V": 2}, Thorough: map[string]int{"F": 6, "V": 3}, Covers: []string{"reached-assert", "short-first-read"}, Unwind: 40000, MaxSteps: 8000000, Note: "multipart body assembly (WriteMultipartFormFile + AddMultipartFormField on the real mime/multipart.Writer run from SSA): symbolic file/field bytes, file reader returning short reads; random boundary and net/http.DetectContentType are stubs"},
 			},
